@@ -267,7 +267,7 @@ fn hex_long(b: &[u8]) -> String {
 }
 
 fn c07_strings(job: &Job, sh: &mut Shard, t0: Instant) {
-    let l = job.tier.pick(6usize, 7usize);
+    let l = job.tier.pick(6usize, 8usize);
     for len in 0..=l {
         let total = (ALPHA.len() as u64).pow(len as u32);
         let mut idx = job.shard as u64;
@@ -989,7 +989,7 @@ fn c08_one(frames: &[RFrame], sh: &mut Shard, _t0: Instant) {
 pub fn report_meta(prop: &str, tier: Tier) -> (String, Value, Vec<String>) {
     match prop {
         "C07" => {
-            let l = tier.pick(6, 7);
+            let l = tier.pick(6, 8);
             let grid = number_grid().len();
             (
                 format!("(a) ALL byte strings of length <= {} over the 12 symbols {:?}: check alone, parse alone, check-then-parse, and every strict prefix of every fully accepted string; (b) number grid of {} messages: carriers integer / bulk length / array length, at top level and nested after a filler of 0..40 bytes (moves the digits across absolute offset 18), signs none/+/-, 1..21 digits, values around i64::MIN/MAX, 10^19, 2^64; (c) every truncation point of every grid message and of the request set; (d) nesting depth up to 10^6 and (e) declared lengths up to 2^64-1, each in a forked child on an 8 MiB and a 2 MiB stack. Oracle: never a panic or process death; every accepted frame equals what an independent decoder (exact i128 decimal reader) gives, with the same length; check's length = parse's length; no strict prefix accepted as the same frame. Distinct+non-trivial = inputs accepted by check (strings) / grid messages / child cases.", l, String::from_utf8_lossy(ALPHA), grid),
